@@ -78,6 +78,18 @@ class FortranObj:
     def get_ancestors(self):
         return []
 
+    def links_back(self, target, field: str = "link_obj") -> bool:
+        """True if following ``field`` from ``target`` leads back to this object,
+        i.e. if ``self.<field> = target`` would close a cycle"""
+        seen = set()
+        obj = target
+        while obj is not None and id(obj) not in seen:
+            if obj is self:
+                return True
+            seen.add(id(obj))
+            obj = getattr(obj, field, None)
+        return False
+
     def get_diagnostics(self):
         return []
 
